@@ -5,16 +5,57 @@ implementation compiled from the CSV text, decided by the verified simulation ch
 sequences up to names the sheet does not fix."""
 import json
 
+import comp_corr
 import flowutil
 import rowref
 import sheetgen
-from common import parse_sexp
+from common import enc_str, parse_sexp
 
 LEVEL = "translation_validation"
 
 
+def refinement_on_model(ctx, rows):
+    """the statement of C02_compile_refines_rowsem_std evaluated on the extracted model for this sheet: is the sheet in
+    the fragment (fragb), does the model compile it, does it have a reference meaning, does the verified checker accept
+    the pair.  In the fragment, with both defined, the theorem says: accepted."""
+    m = ctx.model
+    if not m:
+        return
+    try:
+        q = "(120 3 %s %s)" % (enc_str("f1"), comp_corr.rows_sexp(rows))
+    except (ValueError, KeyError):
+        ctx.count("refinement: sheet outside the encodable vocabulary")
+        return
+    r = parse_sexp(m.ask(q))
+    if not isinstance(r, list) or len(r) != 4:
+        ctx.disagree("refinement evaluation: model could not read the sheet", dict(rows=rows), str(r), "")
+        return
+    frag, comp, ref, eq = r
+    if not frag:
+        ctx.count("refinement: sheet outside the fragment of the theorem")
+        return
+    ctx.count("refinement: sheets in the fragment of the theorem")
+    if comp and ref:
+        ctx.count("refinement: in fragment, compiles, has a reference meaning")
+        if eq != 1:
+            ctx.disagree("the extracted model contradicts C02_compile_refines_rowsem_std on this sheet", dict(rows=rows), str(r), "")
+
+
+def strip_names(rows):
+    """the same sheet inside the fragment of the refinement theorem: no category names, no node ids / node names"""
+    import copy
+    rows = copy.deepcopy(rows)
+    for r in rows:
+        for e in r["edges"]:
+            e["name"] = ""
+        r.pop("node_uuid", None)
+        r.pop("node_name", None)
+    return rows
+
+
 def judge(ctx, rows, layout_rng, nontrivial, samples, wf=True):
     v, m = ctx.v, ctx.model
+    refinement_on_model(ctx, rows)
     headers, cells = sheetgen.render_sheet(rows, layout_rng)
     r = flowutil.compile_workbook(flowutil.single_flow_workbook("f1", headers, cells))
     v.coverage["evaluations"] += 1
@@ -67,6 +108,16 @@ def run(ctx):
         if not rows:
             continue
         judge(ctx, rows, rng, nontrivial, samples, wf=wf)
+    # the same kind of sheets inside the fragment of the refinement theorem (unnamed categories, no node ids)
+    for i in range(n // 4):
+        rng = ctx.rng
+        rows, g = sheetgen.gen_core_sheet(rng, rng.choice([2, 4, 6, 10, 15]), wf=True, special_text=rng.random() < 0.5)
+        if rows:
+            ctx.count("fragment_sheets")
+            before = ctx.stats.get("refinement: sheets in the fragment of the theorem", 0)
+            judge(ctx, strip_names(rows), rng, nontrivial, samples, wf=True)
+            if ctx.stats.get("refinement: sheets in the fragment of the theorem", 0) > before:
+                ctx.count("fragment_sheets inside the fragment")
     # node merging through the node name (rows sharing a _nodeId), written deliberately
     for i in range(n // 10):
         rng = ctx.rng
